@@ -60,7 +60,7 @@ def concretise(tpl, idx, inst, rng, seed):
         if "c" in sl:
             c = sl["c"]
             if inst == 0:
-                out.append(c[(idx * 7 + seed * 13 + k * 3) % len(c)])
+                out.append(c[(idx * 7919 + seed * 104729 + k * 31) % len(c)])
             else:
                 out.append(c[rng.randrange(len(c))])
         else:
